@@ -26,6 +26,30 @@ def cfgFlagsOK (k : Kind) : Bool :=
   | .main0 cfg _ _ => cfg.start.isNone && cfg.end_.isSome && !cfg.matchNames && !cfg.matchLabels
   | _ => true
 
+/-- constructs that can carry a construct name: C801, C803, C819, C730, C732, C810, C821 -/
+def strictNamed2003 : List String :=
+  ["If_Construct", "Case_Construct", "Select_Type_Construct", "Where_Construct",
+   "Forall_Construct", "Associate_Construct", "Block_Nonlabel_Do_Construct"]
+def strictNamed2008 : List String := strictNamed2003 ++ ["Block_Construct", "Critical_Construct"]
+def labelDo : List String := ["Block_Label_Do_Construct", "Action_Term_Do_Construct"]
+
+/-- every listed construct is present, checks names strictly; the label-DO constructs match
+labels and use the same-label hook -/
+def namedOK (strict : List String) (names : Array String) (kinds : Array Kind) : Bool :=
+  strict.all names.contains && labelDo.all names.contains &&
+  (List.range names.size).all fun i =>
+    let nm := names.getD i ""
+    let k := kinds.getD i .leaf
+    (if strict.contains nm then
+      (match k with | .block cfg _ => cfg.matchNames && cfg.strictNames | _ => false) else true) &&
+    (if labelDo.contains nm then
+      (match k with | .block cfg _ => cfg.matchLabels && cfg.doHook | _ => false) else true)
+
+theorem named_strict_2003 :
+    namedOK strictNamed2003 Generated.F2003.names Generated.F2003.kinds = true := by decide +kernel
+theorem named_strict_2008 :
+    namedOK strictNamed2008 Generated.F2008.names Generated.F2008.kinds = true := by decide +kernel
+
 theorem program_shape_2003 : programShape Generated.F2003.table Generated.F2003.program = true := by
   decide +kernel
 theorem program_shape_2008 : programShape Generated.F2008.table Generated.F2008.program = true := by
